@@ -541,11 +541,13 @@ impl<'a> Socket<'a> {
 
         let res = self.tx_buffer.dequeue_with(|packet_meta, payload_buf| {
             // The application may hand back the metadata of a datagram it received through a
-            // broadcast or multicast destination: such an address is never used as a source.
-            let src_addr = if let Some(s) = packet_meta.local_address.filter(|s| s.is_unicast()) {
+            // broadcast (also subnet-directed) or multicast destination, and the socket may be
+            // bound to a group address: such an address is never used as a source.
+            let usable = |s: &IpAddress| s.is_unicast() && !cx.is_broadcast(s);
+            let src_addr = if let Some(s) = packet_meta.local_address.filter(|s| usable(s)) {
                 s
             } else {
-                match endpoint.addr {
+                match endpoint.addr.filter(|s| usable(s)) {
                     Some(addr) => addr,
                     None => match cx.get_source_address(&packet_meta.endpoint.addr) {
                         Some(addr) => addr,
